@@ -128,6 +128,7 @@ struct op_t
 };
 auto remove_if_1(const op_t& op, T<1>& x) { return remove_if(op, x); }
 auto remove_if_121(const op_t& op, T<1>& e, T<2>& s, T<1>& a) { return remove_if(op, e.slice(0, 1), s.slice(0, 1), a.slice(0, 1)); }
+void detail_copy_3(ts a, ts b, tensor_map_t<double, 3>& t) { detail::copy(a, b, t); }
 // ---- integral.h: input scalar narrower than the output scalar
 void integral_int8_int64_1(tensor_cmap_t<int8_t, 1> i, tensor_map_t<int64_t, 1> o) { integral(i, o); }
 void integral_int8_int64_2(tensor_cmap_t<int8_t, 2> i, tensor_map_t<int64_t, 2> o) { integral(i, o); }
